@@ -19,3 +19,16 @@ Theorem C01_hole_text :
   forall n, hole_text MySQL n = [63] /\ hole_text SQLite n = [63] /\ hole_text Postgres n = 36 :: dec_of_N n.
 Proof. intros n. repeat split. Qed.
 Print Assumptions C01_hole_text.
+
+(* The values a rendered expression pushes are the given ones: for EVERY expression tree without a
+   custom template (templates choose values by placeholder: C11), every backend, every parenthesis
+   table and both rendering paths, the values in the script are the tree's values in traversal
+   order (expr_values: left operand before right, WHEN before THEN before ELSE, a subquery's values
+   at the subquery's position) - none lost, duplicated or moved; with C01_push_param_invariant the
+   returned collection is therefore exactly that traversal *)
+Require Import SQV.Model.Expr SQV.Model.RenderExpr SQV.Spec.ExprValues SQV.Proofs.ExprValuesProofs.
+Theorem C01_values_are_the_given_ones :
+  forall Q (rq : Q -> script) is_alpha b T (e : expr Q), no_template e = true -> forall common,
+  vals_of (rexpr Q rq is_alpha b T common e) = expr_values (fun q => vals_of (rq q)) e.
+Proof. exact rendered_values_are_the_given_ones. Qed.
+Print Assumptions C01_values_are_the_given_ones.
